@@ -143,7 +143,7 @@ def run(ctx):
     ctx.coverage["undefined_skipped"] = nundef
     ctx.coverage["outside_fragment"] = nstuck
     ctx.sample({"qml": docs[0][0] if docs else None})
-    ctx.coverage["rule"] = ("type-directed binding programs (expression or block with return on every path; depth 2-4) over bool / int / uint / QString / VObj* with property reads "
+    ctx.coverage["rule"] = ("type-directed binding programs (expression or block with return on every path; depth 2-4) over bool / int / uint / double (IEEE-754, NaN / infinities / signed zeros in the worlds) / QString / VObj* with property reads "
                             "through named objects, this, pointer chains and child(), methods, all arithmetic / bitwise / shift / comparison / logical operators, ternary, casts, "
                             "Math.max/min, let/const, assignment, if/else, switch with fall-through, break and default anywhere; each accepted program executed in %d worlds with "
                             "boundary integers, empty / non-ASCII strings and null / cyclic next pointers; non-trivial = accepted by qmluic" % nworlds)
